@@ -148,6 +148,10 @@ def gen_lifetime(rng, method, tier, guard=False):
     if guard:
         p.update(quota=2, credit='never', mode='lockstep', syn=False)
         n = 3
+    elif rng.random() < 0.2:
+        # a memory limit every worker exceeds with its first job: the same
+        # exit as a quota of one, reached through the memory-limit path
+        p.update(quota=1, memlimit=True)
     nack_rate = rng.choice([0.0, 0.2, 0.5, 0.8]) if syn else 0.0
     jobs = []
     base = rng.randrange(1, 10**6)
@@ -233,8 +237,9 @@ def drive_lifetime(p, rec):
     synq = ctx.SimpleQueue() if p['syn'] else None
     counter = None if p['credit'] == 'absent' else ctx.Value('i')
     sentinel = ctx.Event() if p['sentinel_event'] else None
-    w = bpool.Worker(inq, outq, synq, maxtasks=p['quota'], sentinel=sentinel,
-                     on_exit=H.on_exit, on_ready_counter=counter)
+    w = bpool.Worker(inq, outq, synq, maxtasks=None if p.get('memlimit') else p['quota'],
+                     sentinel=sentinel, on_exit=H.on_exit, on_ready_counter=counter,
+                     max_memory_per_child=1 if p.get('memlimit') else None)
     proc = ctx.Process(target=w)
     proc.daemon = True
     t_start = time.monotonic()
@@ -654,7 +659,7 @@ def judge_lifetime(p, h, rec):
     # ---- counters, quota, exit ------------------------------------------
     executed = len(readied)
     nacks = bool(refused)
-    qattr = {'nacks': nacks, 'credit': p['credit']}
+    qattr = {'nacks': nacks, 'credit': p['credit'], 'memlimit': bool(p.get('memlimit'))}
     if quota is not None and executed > quota:
         V('quota_exceeded', qattr, executed=executed, quota=quota)
     if seen_death is not None:
@@ -664,6 +669,8 @@ def judge_lifetime(p, h, rec):
                 V('worker_exited_without_quota', qattr, death=seen_death)
             else:
                 rec.count('iso:quota_exits_checked')
+                if p.get('memlimit'):
+                    rec.count('iso:memlimit_exits_checked')
                 if executed != quota:
                     V('quota_exit_wrong_count', qattr, executed=executed, quota=quota,
                       refused=len(refused), death=seen_death)
